@@ -29,7 +29,7 @@ from harness import core  # noqa: E402
 
 VERIF_DIR = os.path.dirname(os.path.abspath(__file__))
 # self-tests against a mutated copy (VERIF_REPO) never touch the committed evidence/replays
-_ALT = bool(os.environ.get("VERIF_REPO"))
+_ALT = bool(os.environ.get("VERIF_REPO") or os.environ.get("VERIF_ALT"))
 EVID_DIR = os.path.join(VERIF_DIR, ".alt", "evidence") if _ALT else os.path.join(VERIF_DIR, "evidence")
 REPLAY_DIR = os.path.join(VERIF_DIR, ".alt", "replays") if _ALT else os.path.join(VERIF_DIR, "replays")
 
